@@ -112,7 +112,7 @@ def cases(spec, ctx):
             continue
         if rng.random() < 0.2:
             fc = c10.gen_case(rng)
-            while fc.get("corr") or fc.get("flatprim"):       # (no condition AST to rewrite in these)
+            while fc.get("corr") or fc.get("flatprim") or fc.get("big"):       # (no condition AST to rewrite in these)
                 fc = c10.gen_case(rng)
             fc["caching"] = True
             variants = []
